@@ -406,8 +406,20 @@ func pathDepth(v ssa.Value, d int) string {
 	case *ssa.Index:
 		return pathDepth(x.X, d+1) + "[" + pathDepth(x.Index, d+1) + "]"
 	case *ssa.FieldAddr:
+		if groupingField(x.X.Type(), fieldOf(x)) {
+			// fields of an inventory struct that were grouped into a small struct of
+			// their own (embedded or named) keep their old names: x.group.f is x.f
+			return pathDepth(x.X, d+1)
+		}
 		return pathDepth(x.X, d+1) + ".&" + fieldOf(x).Name()
 	case *ssa.Field:
+		if groupingField(x.X.Type(), fieldOf(x)) {
+			return pathDepth(x.X, d+1)
+		}
+		// a field of a struct value that was loaded whole is the field read in place
+		if ld, ok := x.X.(*ssa.UnOp); ok && ld.Op == token.MUL {
+			return pathDepth(ld.X, d+1) + ".&" + fieldOf(x).Name() + ".*"
+		}
 		return pathDepth(x.X, d+1) + "." + fieldOf(x).Name()
 	case *ssa.ChangeType:
 		return pathDepth(x.X, d+1)
@@ -1019,4 +1031,92 @@ func effectivelyConstGlobal(P *Program, g *ssa.Global) bool {
 	}
 	P.cache[key] = ok
 	return ok
+}
+
+// loadedField: v is the value of a struct field read from memory or from a
+// struct value; the field.
+func loadedField(v ssa.Value) *types.Var {
+	switch x := v.(type) {
+	case *ssa.UnOp:
+		if x.Op == token.MUL {
+			if fa, ok := x.X.(*ssa.FieldAddr); ok {
+				return fieldOf(fa)
+			}
+		}
+	case *ssa.Field:
+		if st, ok := x.X.Type().Underlying().(*types.Struct); ok {
+			return st.Field(x.Field)
+		}
+	}
+	return nil
+}
+
+// fieldStores: every store into field f in the module (composite literals
+// included: they are stores into the fields of a fresh allocation).
+func storesToField(P *Program, f *types.Var) []*ssa.Store {
+	key := "fieldstores"
+	m, ok := P.cache[key].(map[*types.Var][]*ssa.Store)
+	if !ok {
+		m = map[*types.Var][]*ssa.Store{}
+		for _, fn := range P.Funcs {
+			eachInstr(fn, func(_ *ssa.BasicBlock, _ int, in ssa.Instruction) {
+				if st, ok := in.(*ssa.Store); ok {
+					if fa, ok := st.Addr.(*ssa.FieldAddr); ok {
+						fv := fieldOf(fa)
+						m[fv] = append(m[fv], st)
+					}
+				}
+			})
+		}
+		P.cache[key] = m
+	}
+	return m[f]
+}
+
+// nonNegStored: the integer v cannot be negative by its nature (a length, a
+// non-negative constant, an unsigned value, or a phi of such).
+func nonNegStored(v ssa.Value, d int) bool {
+	if ph, ok := v.(*ssa.Phi); ok && d < 4 {
+		for _, e := range ph.Edges {
+			if !nonNegStored(e, d+1) {
+				return false
+			}
+		}
+		return true
+	}
+	return proveNonNeg(lin(v), nil, unsignedSymbolsOf(v))
+}
+
+// groupingField: field f of the struct behind t groups former fields of that
+// struct: the owner is a struct of the inventory, the field's type is a struct
+// type of the same package that the inventory does not know, and none of its
+// field names is a field of the owner.
+func groupingField(t types.Type, f *types.Var) bool {
+	owner := namedOf(t)
+	if owner == nil || owner.Obj().Pkg() == nil || !anchorTypes[owner.Obj().Pkg().Path()+"."+owner.Obj().Name()] {
+		return false
+	}
+	inner, ok := f.Type().(*types.Named)
+	if !ok || inner.Obj().Pkg() != owner.Obj().Pkg() || anchorTypes[inner.Obj().Pkg().Path()+"."+inner.Obj().Name()] {
+		return false
+	}
+	if _, known := anchorSigs["field:"+owner.Obj().Pkg().Path()+"."+owner.Obj().Name()+"."+f.Name()]; known {
+		return false // a field the inventory has under this name (its type merely got a name)
+	}
+	ist, ok := inner.Underlying().(*types.Struct)
+	if !ok {
+		return false
+	}
+	ost, ok := owner.Underlying().(*types.Struct)
+	if !ok {
+		return false
+	}
+	for i := 0; i < ist.NumFields(); i++ {
+		for j := 0; j < ost.NumFields(); j++ {
+			if ist.Field(i).Name() == ost.Field(j).Name() {
+				return false
+			}
+		}
+	}
+	return true
 }
